@@ -1,10 +1,12 @@
 package main
 
 import (
+	"bytes"
 	"encoding/hex"
 	"encoding/json"
 	"fmt"
 	"strings"
+	"time"
 
 	"github.com/Allenxuxu/ringbuffer"
 	control "github.com/longportapp/openapi-protobufs/gen/go/control"
@@ -282,6 +284,75 @@ func genC04(e *emitter, tier string, seed uint64) map[string]interface{} {
 				e.fail(idx, "err_mapping", "non-zero status not surfaced as typed error with that status: "+res)
 			case lb != nil && dec == "none" && (lb.Code != 500 || lb.Message != "unknown error, cant unmarshal body"):
 				e.fail(idx, "err_mapping", "undecodable error body did not give the code-500 fallback: "+res)
+			}
+		}
+	}
+	// totality under concurrency: the decoders of several connections run at the same time (one reader goroutine per connection in the
+	// client); valid gzip-flagged frames, truncated ones and corrupt ones mixed — no panic, valid frames decode, calls return
+	{
+		const G, N = 8, 80
+		mkFrame := func(version int, n int) ([]byte, []byte) {
+			body := bytes.Repeat([]byte{byte('a' + n%26), byte(n)}, n/2+1)
+			f := specEncode(version, specFrame{typ: 3, cmd: 50 + n%100, gzip: 1, body: stdCompress(body)})
+			return f, body
+		}
+		bad := make([]string, G)
+		done := make(chan int, G)
+		for g := 0; g < G; g++ {
+			go func(g int) {
+				defer func() {
+					if x := recover(); x != nil {
+						bad[g] = fmt.Sprintf("goroutine %d: a decoder panicked under concurrent use: %v", g, x)
+					}
+					done <- g
+				}()
+				for i := 0; i < N; i++ {
+					version := 1 + (g+i)%2
+					f, body := mkFrame(version, 10+((g*131+i*17)%4000))
+					switch i % 5 {
+					case 3: // a corrupt stream: must be an error, not a panic
+						c := append([]byte{}, f...)
+						c[len(c)-6] ^= 0x55
+						proto(version).UnpackBytes(newCtx(version, protocol.CodecProtobuf), c)
+						continue
+					case 4: // truncated
+						proto(version).UnpackBytes(newCtx(version, protocol.CodecProtobuf), f[:len(f)-3])
+						continue
+					}
+					var q *protocol.Packet
+					var err error
+					if i%2 == 0 {
+						q, err = proto(version).UnpackBytes(newCtx(version, protocol.CodecProtobuf), f)
+					} else {
+						var ok bool
+						q, ok, err = proto(version).Unpack(newCtx(version, protocol.CodecProtobuf), ringbuffer.NewWithData(append([]byte{}, f...)))
+						if err == nil && !ok {
+							err = fmt.Errorf("need more data on a whole frame")
+						}
+					}
+					if err != nil || q == nil || !bytes.Equal(q.Body, body) {
+						bad[g] = fmt.Sprintf("goroutine %d frame %d (v%d): a valid gzip-flagged frame did not decode to its body: err=%v", g, i, version, err)
+						return
+					}
+				}
+			}(g)
+		}
+		stuck := ""
+		for k := 0; k < G; k++ {
+			select {
+			case <-done:
+			case <-time.After(60 * time.Second):
+				stuck = "a decoder call did not return within 60 s under concurrent use"
+			}
+		}
+		idx := e.op("gz.note concurrent decode goroutines=8 frames=80", "done", "concurrent", true)
+		if stuck != "" {
+			e.fail(idx, "unpack_total_concurrent", stuck)
+		}
+		for _, b := range bad {
+			if b != "" {
+				e.fail(idx, "unpack_total_concurrent", b)
+				break
 			}
 		}
 	}
